@@ -20,12 +20,14 @@ type Batch struct {
 	Dir   string
 	Files map[string]string // file name (.templ) → source, each starting with FileHeader
 	Names []string          // registered template functions
-	bin   string
+	// Linked: templ files kept in <Dir>-shared/ and symlinked into the batch directory
+	Linked map[string]bool
+	bin    string
 }
 
 // Build generates, writes and compiles the batch; on a compile failure it returns the compiler output.
 func (b *Batch) Build(extra ...string) (string, error) {
-	m := &Module{Dir: b.Dir, Files: map[string]string{}}
+	m := &Module{Dir: b.Dir, Files: map[string]string{}, Linked: b.Linked}
 	for n, s := range b.Files {
 		m.Files[n] = s
 	}
@@ -97,4 +99,4 @@ func (b *Batch) runOnce(jobs []rt.Job, env []string) ([]rt.Result, string, error
 }
 
 // Remove deletes the batch directory.
-func (b *Batch) Remove() { os.RemoveAll(b.Dir) }
+func (b *Batch) Remove() { os.RemoveAll(b.Dir); os.RemoveAll(b.Dir + "-shared") }
